@@ -183,7 +183,16 @@ def guard_items(rnd, thorough):
                               "static_assert(au::are_units_quantity_equivalent(decltype(r)::unit, A{} / B{}), \"unit of unblocked integer division\");\n"
                               "constexpr auto r2 = 7 / au::unblock_int_div(au::make_quantity<B>(2)); static_assert(r2.in(au::pow<-1>(B{})) == 3, \"\");",
                               "accept", None, dict(desc="value and unit of a / unblock_int_div(b)")))
-    # as_raw_number
+    # as_raw_number is the unit-only conversion to the unitless unit: accepted exactly when the
+    # documented policy permits the factor for the rep - truncation half (integer factor) AND
+    # overflow half (2147 * factor <= max) - over every integral rep and factors on both sides of its threshold
+    for r in ("int8_t", "uint8_t", "int16_t", "uint16_t", "int32_t", "uint32_t", "int64_t", "uint64_t"):
+        mx = int(model.type_max(r))
+        ks = sorted(set(k for k in (2, 3, mx // 2147, mx // 2147 + 1, 1000, 10 ** 6 + 1, mx // 3, mx) if 2 <= k <= mx))
+        for k in ks:
+            exp = "accept" if model.implicit_ok(model.factor(k), r, r) else "reject"
+            code = "using R = %s;\nvoid w() { (void)au::as_raw_number(au::make_quantity<decltype(au::Unos{} * au::mag<%dULL>())>(R{1})); }" % (r, k)
+            items.append(witness.Item("raw:scaled_unos/%d/%s" % (k, r), code, exp, None, dict(desc="as_raw_number of a quantity of %d unos with rep %s (policy: %s)" % (k, r, exp))))
     for r in ("int", "double", "uint8_t"):
         h = "using R = %s;\n" % r
         cases = [
